@@ -32,7 +32,8 @@ CONTROLS = {
     "Poll": [("Poll.mc.cfg", {"Bug": '"no_deregister"'}, "ContractHolds"),
              ("Poll.mc.cfg", {"Bug": '"no_register"'}, "ContractHolds"),
              ("Poll.mc.cfg", {"Bug": '"no_set_on_register"'}, "ContractHolds"),
-             ("Poll.mc3.cfg", {"Bug": '"raise_fails_live"'}, "ContractHolds")],
+             ("Poll.mc3.cfg", {"Bug": '"raise_fails_live"'}, "ContractHolds"),
+             ("Poll.mc.cfg", {"Bug": '"dereg_in_place"'}, "ContractHolds")],
     "Proxy": [("Proxy.mc.cfg", {"Bug": '"forward_cancel"'}, "ContractHolds"),
               ("Proxy.mc.cfg", {"Bug": '"timeout_ignored"'}, "ContractHolds")],
     "Retry": [("Retry.mc.cfg", {"Bug": '"no_inherit"'}, "ContractHolds"),
